@@ -264,7 +264,7 @@ func runC14(c *Check) {
 			list := s.Args()[len(s.Args())-1]
 			var apps []*ssa.Call
 			for _, x := range rootsAll(list) {
-				if call, ok := x.(*ssa.Call); ok && builtinCall(call, "append") != nil {
+				if call, ok := x.(*ssa.Call); ok && builtinCall(call, "append") != nil && types.Identical(call.Type(), list.Type()) {
 					apps = append(apps, call)
 				}
 			}
